@@ -261,7 +261,7 @@ def build_config(ctl, w, j, values, objs):
     spec = w["jobs"][j]
     cls = getattr(V, spec["cls"])
     kw = dict(name=spec["name"])
-    items, table, pre, init, explicit = [], {}, [], [], []
+    items, table, pre, init, explicit, frm = [], {}, [], [], [], []
     for n, (k, how) in enumerate(spec["embed"]):
         use_obj = how.endswith("_obj")
         how = how[:-4] if use_obj else how
@@ -284,6 +284,8 @@ def build_config(ctl, w, j, values, objs):
             pre.append(v)               # a submitted task used as a pre-task
         elif how == "init":
             init.append(V.Pre(x=1000 + n, child=v))
+        elif how == "pre_from":
+            frm.append(v)               # the pre-tasks of the value are taken over (add_pretasks_from)
         elif how == "explicit":
             explicit.append(v.__xpm__.task)      # the task behind the value returned by submit()
         else:
@@ -295,6 +297,8 @@ def build_config(ctl, w, j, values, objs):
     cfg = cls(**kw)
     if pre:
         cfg.add_pretasks(*pre)
+    if frm:
+        cfg.add_pretasks_from(*frm)
     for up in explicit:
         cfg.add_dependencies(up.__xpm__.dependency())
     return cfg, init
